@@ -24,6 +24,7 @@ type SpecEnv struct {
 	inPureFacts  bool
 	preferLocals bool
 	paramNames   map[string]bool // loop invariants / call assertions: a reassigned parameter means its current value
+	loopHead     *ssa.BasicBlock // loop clauses: header of the loop the clause belongs to (for entry(x) and head(x))
 }
 
 type specErr struct{ msg string }
@@ -694,6 +695,32 @@ func (e *SpecEnv) call(n *SCall, old bool) Term {
 			return t
 		}
 		return Term{S: "false", Sort: "Bool"}
+	case "entry", "head":
+		// entry(x): value of the loop variable x when the loop was entered; head(x): its value at the start of the current
+		// iteration (only meaningful in back-edge assertions). For a variable the loop does not assign both are x itself.
+		need(1)
+		id, ok := n.Args[0].(*SIdent)
+		if !ok || e.loopHead == nil {
+			e.fail("%s(x) needs a variable name and is only available in loop clauses", n.Fn)
+		}
+		for _, in := range e.loopHead.Instrs {
+			ph, ok := in.(*ssa.Phi)
+			if !ok {
+				break
+			}
+			if ph.Comment != id.Name {
+				continue
+			}
+			if n.Fn == "head" {
+				return e.tx.val(ph)
+			}
+			for k, p := range e.loopHead.Preds {
+				if !isBackEdge(p, e.loopHead) {
+					return e.tx.coerce(e.tx.val(ph.Edges[k]), e.d().sortOf(ph.Type()))
+				}
+			}
+		}
+		return e.tr(n.Args[0], old)
 	case "heapVersion":
 		return Term{S: e.state(old).hv, Sort: "Int"}
 	case "visited":
@@ -701,7 +728,23 @@ func (e *SpecEnv) call(n *SCall, old bool) Term {
 		need(1)
 		k := args()[0]
 		var found *Term
+		if e.loopHead != nil {
+			// inside a loop clause: the iteration driven by this loop's own `next`
+			for _, in := range e.loopHead.Instrs {
+				if nx, ok := in.(*ssa.Next); ok {
+					if rg, ok := nx.Iter.(*ssa.Range); ok {
+						if g, ok := e.state(old).ghost["visited!"+rg.Name()]; ok {
+							gg := g
+							found = &gg
+						}
+					}
+				}
+			}
+		}
 		for name, g := range e.state(old).ghost {
+			if found != nil && e.loopHead != nil {
+				break
+			}
 			if strings.HasPrefix(name, "visited!") {
 				if found != nil {
 					e.fail("visited(): more than one map iteration in scope")
